@@ -470,6 +470,9 @@ pub fn c17(ctx: &mut Ctx) {
     let mut pos = 0usize;
     let mut case_no = 0u64;
     while pos < pdus.len() {
+        if ctx.over_budget() {
+            break;
+        }
         let end = (pos + chunk).min(pdus.len());
         let list = &pdus[pos..end];
         pos = end;
@@ -490,6 +493,9 @@ pub fn c17(ctx: &mut Ctx) {
         let mut armed = false;
         ctx.rep.evaluations += 1;
         while k < list.len() {
+            if ctx.over_budget() {
+                break;
+            }
             ctx.rep.cur_case = format!("pdu {}", hex(&list[k]));
             if !run.step(&mut ctx.rep, &mut crng) {
                 break;
@@ -537,6 +543,9 @@ pub fn c17(ctx: &mut Ctx) {
     // plus: too-short diagnostics PDUs must be rejected without a crash (random DP histories with ShortPdu cover the master side)
     let n = ctx.n(300, 30_000, 1);
     for j in 0..n {
+        if ctx.over_budget() {
+            break;
+        }
         dp_random_case(&mut ctx.rep, seed, 1_000_000 + ctx.shard + j * ctx.nshards, "C17", false);
     }
 }
